@@ -122,6 +122,48 @@ func (lc *linCtx) lin(v ssa.Value, depth int) linExpr {
 					best = st
 				}
 			}
+			// or the most recent dominating call of a setter of the field's own struct (`rl.next.set(pos + 2)` where
+			// `func (lm *lineMark) set(start int) { lm.start, lm.known = start, true }`): the argument it stores
+			var bestCall *ssa.Call
+			var bestArg ssa.Value
+			sameAddr := func(a, b ssa.Value) bool {
+				if a == b {
+					return true
+				}
+				fa1, ok1 := a.(*ssa.FieldAddr)
+				fa2, ok2 := b.(*ssa.FieldAddr)
+				return ok1 && ok2 && fa1.Field == fa2.Field && fa1.X == fa2.X
+			}
+			for _, in := range instrsOf(lc.fn) {
+				call, ok := in.(*ssa.Call)
+				if !ok || !instrDominates(call, x) || len(call.Call.Args) == 0 || !sameAddr(call.Call.Args[0], fa.X) {
+					continue
+				}
+				g := call.Call.StaticCallee()
+				if g == nil || !lc.c.InPkg(g) || len(g.Blocks) != 1 || len(g.Params) == 0 {
+					continue
+				}
+				for _, in2 := range g.Blocks[0].Instrs {
+					st, ok := in2.(*ssa.Store)
+					if !ok {
+						continue
+					}
+					fa2, ok := st.Addr.(*ssa.FieldAddr)
+					if !ok || fa2.Field != fa.Field || fa2.X != ssa.Value(g.Params[0]) {
+						continue
+					}
+					for j, prm := range g.Params {
+						if st.Val == ssa.Value(prm) && j < len(call.Call.Args) {
+							if bestCall == nil || instrDominates(bestCall, call) {
+								bestCall, bestArg = call, call.Call.Args[j]
+							}
+						}
+					}
+				}
+			}
+			if bestCall != nil && (best == nil || instrDominates(best, bestCall)) {
+				return lc.lin(bestArg, depth+1)
+			}
 			if best != nil {
 				return lc.lin(best.Val, depth+1)
 			}
